@@ -159,10 +159,30 @@ def _float_gcd(a, b, rtol=1e-05, atol=1e-08):
     return a
 
 
+def _all_of(a, b) -> dict:
+    # Conjunction of two sub-schemas. Nested conjunctions are flattened and repeated members dropped,
+    # otherwise a recursive reference that meets itself grows by one wrapper on every round of normalization
+    parts = []
+    seen = set()
+    for schema in (a, b):
+        if isinstance(schema, dict) and list(schema.keys()) == ['allOf']:
+            members = schema['allOf']
+        else:
+            members = [schema]
+        for member in members:
+            key = json.dumps(member)
+            if key not in seen:
+                seen.add(key)
+                parts.append(member)
+    if len(parts) == 1:
+        return parts[0]
+    return {'allOf': parts}
+
+
 _simple_mergers = {
     'required': lambda a, b: list(set(a) | set(b)),
     'multipleOf': lambda a, b: abs(a*b) // _float_gcd(a, b),
-    'items': lambda a, b: {'allOf': [a, b]},
+    'items': _all_of,
     'minimum': lambda a, b: max(a, b),
     'maximum': lambda a, b: min(a, b),
     'type': _merge_type,
@@ -191,24 +211,18 @@ def _merge_properties(result: dict, to_add: dict) -> dict:
     additional_to_add = to_add.get('additionalProperties')
     for property_name, schema in props_result.items():
         if property_name in props_to_add:
-            props_result[property_name] = {'allOf': [
-                schema, props_to_add[property_name]
-            ]}
+            props_result[property_name] = _all_of(schema, props_to_add[property_name])
         else:
             if additional_to_add is None:
                 props_result[property_name] = schema
             else:
-                props_result[property_name] = {'allOf': [
-                    schema, additional_to_add
-                ]}
+                props_result[property_name] = _all_of(schema, additional_to_add)
     for property_name, schema in props_to_add.items():
         if property_name not in props_result:
             if additional_result is None:
                 props_result[property_name] = schema
             else:
-                props_result[property_name] = {'allOf': [
-                    schema, additional_result
-                ]}
+                props_result[property_name] = _all_of(schema, additional_result)
     return props_result
 
 
@@ -241,7 +255,7 @@ def _merge_prefix_items(result: dict, to_add: dict) -> dict:
 
     assert len(prefix_items_a) == len(prefix_items_b)
     for i, j in zip(prefix_items_a, prefix_items_b):
-        result_prefix_items.append({'allOf': [i, j]})
+        result_prefix_items.append(_all_of(i, j))
 
     return result_prefix_items
 
